@@ -412,6 +412,9 @@ func (fc *funcContext) translateExpr(expr ast.Expr) *expression {
 				if v := fc.pkgCtx.Types[e.Y].Value; v != nil {
 					i, _ := constant.Uint64Val(constant.ToInt(v))
 					if i >= 32 {
+						if e.Op == token.SHR && !isUnsigned(basic) {
+							return fc.fixNumber(fc.formatParenExpr("%e >> 31", e.X), basic)
+						}
 						return fc.formatExpr("0")
 					}
 					return fc.fixNumber(fc.formatExpr("%e %s %s", e.X, op, strconv.FormatUint(i, 10)), basic)
